@@ -460,9 +460,53 @@ def upgrade_sync_executor_only_in_transfer_branches(sc):
     return (not problems), "; ".join(problems)
 
 
+# "one hold across all fragments" (AUDIT C14/2): the lock-set predicates say every writeFrame call happens with the ws
+# mutex held; they would still pass with `Unlock(); Lock()` between two fragments. This one excludes it: in the body of
+# WriteMessage (closure 0) the mutex is locked once, before the first writeFrame call, released only by the deferred
+# unlock, and no Unlock / second Lock of it lies between the first and the last writeFrame call (nor anywhere else in
+# the body); writeFrame's own body (closure 0, the direct-mode write) never touches the mutex.
+def no_unlock_between(name, relfile, func, mutex, call):
+    def check(sc):
+        fs = cs.facts(sc, relfile)
+        if func not in fs:
+            return False, "function %s not found in %s" % (func, relfile)
+        fl = [f for f in fs[func] if f["closure"] == 0]
+        calls = sorted(f["line"] for f in fl if f["kind"] == "call" and f["expr"] == call)
+        locks = sorted(f["line"] for f in fl if f["kind"] == "lock" and f["expr"] == mutex)
+        unlocks = sorted(f["line"] for f in fl if f["kind"] == "unlock" and f["expr"] == mutex)
+        dunlocks = [f for f in fl if f["kind"] == "defer-unlock" and f["expr"] == mutex]
+        problems = []
+        if len(calls) < 2:
+            problems.append("%s: fewer than two %s calls found (predicate vacuous)" % (func, call))
+        if len(locks) != 1 or len(dunlocks) != 1:
+            problems.append("%s: expected one Lock and one deferred Unlock of %s, found %d / %d" % (func, mutex, len(locks), len(dunlocks)))
+        elif calls and not locks[0] < calls[0]:
+            problems.append("%s: %s is locked after the first %s call" % (func, mutex, call))
+        if calls:
+            between = [l for l in unlocks + locks[1:] if calls[0] <= l <= calls[-1]]
+            if between:
+                problems.append("%s: %s is unlocked / relocked at line(s) %s between the first and the last %s call" % (func, mutex, between, call))
+        if unlocks:
+            problems.append("%s: explicit Unlock of %s at line(s) %s (only the deferred one is expected)" % (func, mutex, unlocks))
+        return (not problems), "; ".join(problems)
+    check.__name__ = name
+    return check
+
+
+def _writeframe_body_keeps_lock(fl):
+    bad = [f for f in fl if f["closure"] == 0 and f["kind"] in ("lock", "unlock", "defer-unlock") and f["expr"] == "recv.mux"]
+    if bad:
+        return ["writeFrame: its own body locks/unlocks the ws mutex at line(s) %s (the caller's hold would be interrupted)" % [f["line"] for f in bad]]
+    if not [f for f in fl if f["closure"] == 0 and f["kind"] == "call" and f["expr"] == "recv.Conn.Write"]:
+        return ["writeFrame: direct conn write not found (predicate vacuous)"]
+    return []
+
+
 C14_CS = cs.WSWRITE + cs.WSCLOSE + [
     cs_conc.cs_conn_submit, cs_conc.cs_conn_drainer, cs_conc.cs_conn_close_flip, cs_conc.cs_nbhttp_close_routed,
     _custom("upgrade_response_before_open", "nbhttp/websocket/upgrader.go", "websocket.Upgrader.Upgrade", _upgrade_order),
     _custom("ws_message_dispatched_through_execute", "nbhttp/websocket/conn.go", "websocket.Conn.handleMessage", _dispatch),
     upgrade_sync_executor_only_in_transfer_branches,
+    no_unlock_between("ws_writemessage_single_hold_across_fragments", "nbhttp/websocket/conn.go", "websocket.Conn.WriteMessage", "recv.mux", "recv.writeFrame"),
+    _custom("ws_writeframe_body_keeps_callers_lock", "nbhttp/websocket/conn.go", "websocket.Conn.writeFrame", _writeframe_body_keeps_lock),
 ]
